@@ -34,6 +34,8 @@ def transformations(cfg, rng):
     rng.shuffle(pos)
     for i, k in pos[:4]:
         T.append((f"unfold({i},{k})", lambda i=i, k=k: cfg.unfold(i, k)))
+    # the order matters for caches shared between transformations of one object (e.g. the trim cache)
+    rng.shuffle(T)
     return T
 
 
